@@ -298,6 +298,39 @@ def run_case(case):
         rec.expect_true("patches-iter", lambda: iterate(x.patches, N, C.sel_patches),
                         "iteration over .patches does not yield patches 0..n-1")
 
+    # ---- get_array(): the documented (bins, patches, patches) view, read-only in effect
+    if T in ("PatchedCounts", "PatchedSumWeights", "NormalisedCounts"):
+        def arr_ok():
+            a = np.array(x.get_array())
+            if T == "PatchedCounts":
+                want = sx["counts"]
+            elif T == "PatchedSumWeights":
+                want = ref.weight_product(sx["sw1"], sx["sw2"], sx["auto"])
+            else:
+                tot = ref.weight_product(sx["sum_weights"]["sw1"], sx["sum_weights"]["sw2"],
+                                         sx["sum_weights"]["auto"]).sum(axis=(1, 2))
+                want = sx["counts"]["counts"] / tot[:, None, None]
+            return a.shape == want.shape and np.allclose(a, want, rtol=1e-12, equal_nan=True)
+        rec.expect_true("get_array", arr_ok, "get_array() is not the documented array")
+        rec.expect_true("get_array", arr_ok, "second get_array() call differs from the first")
+        rec.expect_true("get_array-immutability", lambda: C.snap_equal(C.snap(x), sx),
+                        "get_array() changed the container")
+    if T == "CorrFunc":
+        def members_arrays():
+            for m in ("dd", "dr", "rd", "rr"):
+                nc = getattr(x, m)
+                if nc is not None:
+                    nc.get_array()
+                    nc.counts.get_array()
+                    nc.sum_weights.get_array()
+            return C.snap_equal(C.snap(x), sx)
+        rec.expect_true("get_array-immutability", members_arrays, "get_array() of a member changed the CorrFunc")
+        if sample_defined:
+            def resample():
+                a, b = x.sample(), x.sample()
+                return np.array_equal(a.data, b.data, equal_nan=True) and np.array_equal(a.samples, b.samples, equal_nan=True)
+            rec.expect_true("sample-repeatable", resample, "sampling twice gives different results")
+
     # unmodified after everything
     rec.expect_true("immutability", lambda: C.snap_equal(C.snap(x), sx),
                     "container changed by read-only operations")
